@@ -151,7 +151,11 @@ class Checker:
             ia = [float(round(x)) or 1.0 for x in va]
             ib = [float(round(y)) or 1.0 for y in vb]
             for side, xa, xb, kinds in (("left", ia, vb, (("ndarray_int", "list"), ("ndarray_int", "tuple"), ("ndarray_int", "ndarray"))), ("right", va, ib, (("list", "ndarray_int"), ("tuple", "ndarray_int"), ("ndarray", "ndarray_int")))):
-                refi = [_apply(op, Scalar.CreateWithQuantity(qa, x), Scalar.CreateWithQuantity(qb, y)) for x, y in zip(xa, xb)]
+                try:
+                    refi = [_apply(op, Scalar.CreateWithQuantity(qa, x), Scalar.CreateWithQuantity(qb, y)) for x, y in zip(xa, xb)]
+                except ZeroDivisionError:
+                    ctx.cls("skipped_divisor_zero_after_matching")  # (1 atm is 0 bar(g))
+                    continue
                 for ka, kb in kinds:
                     A = Array.CreateWithQuantity(qa, gen.as_container(ka, [int(x) for x in xa] if ka == "ndarray_int" else xa))
                     B = Array.CreateWithQuantity(qb, gen.as_container(kb, [int(y) for y in xb] if kb == "ndarray_int" else xb))
@@ -349,7 +353,11 @@ class Checker:
         va, vb = va[:n], vb[:n]
         if op in ("/", "//") and any(y == 0 for y in vb):
             return
-        ref = [repr(_apply(op, Scalar(x, ua), Scalar(y, ub))) for x, y in zip(va, vb)]
+        try:
+            ref = [repr(_apply(op, Scalar(x, ua), Scalar(y, ub))) for x, y in zip(va, vb)]
+        except ZeroDivisionError:
+            ctx.cls("skipped_divisor_zero_after_matching")
+            return
         same_type = Scalar(1.0, ua).GetQuantityType() == Scalar(1.0, ub).GetQuantityType()
         conv = [Scalar(x, ua).GetValue(ub) for x in va] if same_type else None
         global _SKEWED
